@@ -768,4 +768,62 @@ theorem sound_and (K : Kinds) : ∀ (ps : List (Option Name × Pat)),
             · exact sound_and K ps _ t (inter acc la) r e1 hk hl ((mem_inter _ _ _).2 ⟨ha, hin⟩) he1
 end
 
+/-! ### search events -/
+
+/-- the walk, restricted to an `on` mode, filtered by the verdict of each event's own node -/
+def matchedEvents (K : Kinds) (p : Pat) (on : On) (t : Tree) : List (Tree × Bool × TEnv) :=
+  ((walkBoth K t).filter (fun ev => on.keeps ev.2)).filterMap (fun ev =>
+    match matchNode K p [] ev.1 with
+    | none => none
+    | some e => some (ev.1, ev.2, e))
+
+theorem filterMap_filter_of_imp {α β} (l : List α) (q : α → Bool) (f : α → Option β)
+    (h : ∀ a ∈ l, (f a).isSome = true → q a = true) : (l.filter q).filterMap f = l.filterMap f := by
+  induction l with
+  | nil => rfl
+  | cons a l ih =>
+    have ih' := ih (fun b hb => h b (List.mem_cons_of_mem _ hb))
+    by_cases hq : q a = true
+    · simp [List.filter_cons, hq, List.filterMap_cons, ih']
+    · have hf : f a = none := by
+        cases hfa : f a with
+        | none => rfl
+        | some b => exact absurd (h a List.mem_cons_self (by simp [hfa])) hq
+      simp [List.filter_cons, hq, List.filterMap_cons, hf, ih']
+
+mutual
+theorem mem_walkBoth_kind (K : Kinds) : ∀ (t : Tree) (ev : Tree × Bool), ev ∈ walkBoth K t → ev.1.kind ∈ K.all
+  | .node i k ks, ev, h => by
+    simp only [walkBoth] at h
+    split at h
+    · next hk =>
+      simp only [List.mem_cons, List.mem_append, List.not_mem_nil, or_false] at h
+      rcases h with h | h | h
+      · subst h; simpa [Tree.kind] using hk
+      · exact mem_walkBothList_kind K ks ev h
+      · subst h; simpa [Tree.kind] using hk
+    · exact mem_walkBothList_kind K ks ev h
+theorem mem_walkBothList_kind (K : Kinds) : ∀ (ts : List Tree) (ev : Tree × Bool), ev ∈ walkBothList K ts → ev.1.kind ∈ K.all
+  | [], ev, h => by simp [walkBothList] at h
+  | t :: ts, ev, h => by
+    simp only [walkBothList, List.mem_append] at h
+    rcases h with h | h
+    · exact mem_walkBoth_kind K t ev h
+    · exact mem_walkBothList_kind K ts ev h
+end
+
+mutual
+/-- the enter events of the two-sided walk are the pre-order walk -/
+theorem walk_of_both (K : Kinds) : ∀ t : Tree, ((walkBoth K t).filter (fun ev => !ev.2)).map (·.1) = walk K t
+  | .node i k ks => by
+    simp only [walkBoth, walk]
+    split
+    · simp [List.filter_cons, List.filter_append, walkList_of_both K ks]
+    · exact walkList_of_both K ks
+theorem walkList_of_both (K : Kinds) : ∀ ts : List Tree,
+    ((walkBothList K ts).filter (fun ev => !ev.2)).map (·.1) = walkList K ts
+  | [] => by simp [walkBothList, walkList]
+  | t :: ts => by simp [walkBothList, walkList, List.filter_append, walk_of_both K t, walkList_of_both K ts]
+end
+
 end Pfst.Match
